@@ -14,6 +14,13 @@ typedef unsigned __int128 u128;
 #ifndef VNMAX              // amounts 0..VNMAX
 #define VNMAX 2100000000000000ULL
 #endif
+#ifndef MLO    // optional case split on the mantissa / code range (union of the variants = full range)
+#define MLO 0ULL
+#endif
+#ifndef MHI
+#define MHI (~0ULL)
+#endif
+static uint64_t umin(uint64_t a, uint64_t b) { return a < b ? a : b; }
 static const uint64_t P10[10] = {1ULL, 10ULL, 100ULL, 1000ULL, 10000ULL, 100000ULL, 1000000ULL, 10000000ULL, 100000000ULL, 1000000000ULL};
 
 // Reference encoder, from the format description in compressor.h: write the amount as  n = k * 10^e  with e the largest exponent <= 9;
@@ -22,18 +29,18 @@ static const uint64_t P10[10] = {1ULL, 10ULL, 100ULL, 1000ULL, 10000ULL, 100000U
 // Every amount > 0 has exactly one such representation, so amounts are *constructed* from (m, d, e) (e concrete per variant): no division in the oracle.
 extern "C" void h_amount()
 {
-    const uint64_t m = nondet_range(0, VNMAX / P10[VEXP]);
+    const uint64_t m = nondet_range(MLO, umin(MHI, VNMAX / P10[VEXP]));
 #if VEXP < 9
     const uint64_t d = nondet_range(1, 9);
-    const u128 wide = ((u128)m * 10 + d) * P10[VEXP];
+    const uint64_t wide = (m * 10 + d) * P10[VEXP];   // m <= VNMAX/10^e: no wrap (VNMAX < 2^60)
     const uint64_t code = 1 + 10 * (9 * m + d - 1) + VEXP;
 #else
     VASSUME(m >= 1);
-    const u128 wide = (u128)m * P10[9];
+    const uint64_t wide = m * P10[9];
     const uint64_t code = 1 + 10 * (m - 1) + 9;
 #endif
     VASSUME(wide <= VNMAX);
-    const uint64_t n = (uint64_t)wide;
+    const uint64_t n = wide;
     const uint64_t x = CompressAmount(n);
     verif_observe(x);
     VASSERT(x == code, "CompressAmount equals the reference encoding");
@@ -41,7 +48,6 @@ extern "C" void h_amount()
     verif_observe(back);
     VASSERT(back == n, "DecompressAmount inverts CompressAmount");
     VASSERT(x <= n * 9 + 1, "compressed value is not larger than 9*amount+1 (no wrap)");
-    VWITNESS(n == VNMAX || VEXP != (VNMAX == 2100000000000000ULL ? 14 : 99), "largest amount");
     VWITNESS(m > 1000, "large mantissa");
     VREACH("end");
 }
@@ -49,7 +55,7 @@ extern "C" void h_amount()
 // decoding direction: every code whose decoded amount is in range re-encodes to itself (the encoding is canonical); code = 1 + 10*k + VEXP
 extern "C" void h_amount_dec()
 {
-    const uint64_t k = nondet_range(0, (VNMAX / P10[VEXP] + 1) * 9);
+    const uint64_t k = nondet_range(MLO, umin(MHI, (VNMAX / P10[VEXP] + 1) * 9));
     const uint64_t y = 1 + 10 * k + VEXP;
     const uint64_t n = DecompressAmount(y);
     VASSUME(n <= VNMAX);
